@@ -98,7 +98,7 @@ let iso (m : ogram) (g : ogram) (fixed : string list) : bool =
     let ok0 = List.for_all (fun n -> if List.mem n m.ns then List.mem n g.ns && bind n n else not (List.mem n g.ns)) fixed
               && bind m.st g.st in
     if not ok0 then false else begin
-      let budget = ref 200000 in
+      let budget = ref 20000 in
       let bound_count (h, b) =
         (if Hashtbl.mem phi h then 2 else 0) + List.fold_left (fun c s -> match s with NT a when not (Hashtbl.mem phi a) -> c - 1 | _ -> c) 0 b in
       let match_prod (h, b) (h', b') =
@@ -138,10 +138,22 @@ let mismatch opno kind what =
 
 let names_to_s l = String.concat "," (List.map (fun w -> if w = [] then "ε" else String.concat "" (List.map string_of_name w)) l)
 
-let lang_of_start (g : (n list, n list) grammar) =
-  match c_bounded_lang (nat_of_int k_len) lang_fuel g with
-  | Some tab -> Some (c_lookup g.start tab)
-  | None -> None
+(* bounded language of the start symbol; the bound shrinks for large, dense grammars so that one
+   table stays cheap (3 terminals: 1093 strings of length <= 6, 364 of length <= 5, 121 of length <= 4) *)
+let t_lang = ref 0.0
+let lang_of_start (k : int) (g : (n list, n list) grammar) =
+  let t0 = Sys.time () in
+  let r = match c_bounded_lang (nat_of_int k) lang_fuel g with
+    | Some tab -> Some (c_lookup g.start tab)
+    | None -> None in
+  t_lang := !t_lang +. (Sys.time () -. t0); r
+
+let bound_for (g : ogram) : int =
+  let used = dedupe (List.concat_map (fun (_, b) -> List.filter_map (function T a -> Some a | _ -> None) b) g.ps) in
+  let nt = List.length used and np = List.length g.ps in
+  if nt <= 1 then k_len
+  else if nt = 2 then (if np <= 300 then k_len else k_len - 1)
+  else (if np <= 60 then k_len else if np <= 200 then k_len - 1 else k_len - 2)
 
 let solitary_terminals (g : ogram) = List.for_all (fun (_, b) -> List.length b = 1 || List.for_all (function T _ -> false | NT _ -> true) b) g.ps
 let at_most_binary (g : ogram) = List.for_all (fun (_, b) -> List.length b <= 2) g.ps
@@ -172,7 +184,11 @@ let () =
         maxs "max_nonterminals" (List.length ns); maxs "max_productions" (List.length og.ps);
         List.iter (fun (_, b) -> maxs "max_body_length" (List.length b)) og.ps;
         if List.exists (fun (_, b) -> List.length b >= 5) og.ps then bump "cases_with_body_of_5_or_more";
-        let lang_g = lazy (lang_of_start g) in
+        let lang_memo = Hashtbl.create 4 in
+        let lang_g k = match Hashtbl.find_opt lang_memo k with
+          | Some r -> r
+          | None -> let r = lang_of_start k g in Hashtbl.replace lang_memo k r; r in
+        let case_t0 = !t_lang in
         let yl = lazy (match c_yielding g with Ok l -> List.map string_of_name l | _ -> []) in
         let changed = ref false in
         let opno = ref 0 in
@@ -221,14 +237,17 @@ let () =
                if List.sort compare gg.ps <> List.sort compare og.ps || gg.st <> og.st then changed := true;
                maxs "max_output_productions" (List.length gg.ps);
                (* ---- property-level checks on the Go output *)
-               if c08 then begin
-                 match Lazy.force lang_g, lang_of_start ggm with
+               if c08 && !t_lang -. case_t0 > 6.0 then bump "language_comparisons_skipped_case_time_budget"
+               else if c08 then begin
+                 let k = bound_for gg in
+                 bump ("language_comparisons_with_bound_" ^ string_of_int k);
+                 match lang_g k, lang_of_start k ggm with
                  | Some l1, Some l2 ->
                    bump "language_comparisons";
                    maxs "max_strings_in_Lk" (List.length l1);
                    if List.length l1 > 1 then bump "language_comparisons_with_2_or_more_strings";
                    if not (c_lang_subset l1 l2 && c_lang_subset l2 l1) then
-                     mismatch !opno "api" (Printf.sprintf "%s: L_%d differs: lost {%s} gained {%s}; output %s" opname k_len
+                     mismatch !opno "api" (Printf.sprintf "%s: L_%d differs: lost {%s} gained {%s}; output %s" opname k
                                              (names_to_s (c_lang_diff l1 l2)) (names_to_s (c_lang_diff l2 l1)) (show_gram gg))
                  | _, _ -> bump "language_undecided"
                end else begin
